@@ -36,12 +36,19 @@ func c06Oracle(sp *Spec, x *X, res *mcrt.Result) (string, string) {
 			} else {
 				initial[b] = created
 			}
+			if a := sp.Bars[b].After; a > 0 {
+				// a queued bar takes its predecessor's place: whatever priority it had of its own is replaced
+				initial[b] = initial[a-1]
+			}
 			created++
 		case strings.HasPrefix(c.Op, "prio") && c.Res != "skipped":
 			fmt.Sscanf(c.Op, "prio%d(%d,%t)", &b, &v, &lazy)
 			changes[b] = append(changes[b], prioChange{c.Inv, c.Ret, v, lazy})
 		case strings.HasPrefix(c.Op, "setprio") && c.Res != "skipped":
 			fmt.Sscanf(c.Op, "setprio%d(%d)", &b, &v)
+			if sp.Bars[b].After > 0 {
+				continue // (the programs change a queued bar's priority only while it is still waiting: no effect)
+			}
 			changes[b] = append(changes[b], prioChange{c.Inv, c.Ret, v, false})
 		}
 	}
@@ -231,6 +238,14 @@ func c06Programs(tier string) []*Spec {
 			sp.Main = append(sp.Main, Op{K: "add", B: b})
 		}
 		sp.Main = append(sp.Main, Op{K: "refresh"}, Op{K: "refresh"}, Op{K: "refresh"}, Op{K: "refresh"}, Op{K: "incr", B: 0, N: 1}, Op{K: "incr", B: 1, N: 1}, Op{K: "incr", B: 2, N: 1}, Op{K: "refresh"}, Op{K: "refresh"})
+		out = append(out, sp)
+	}
+	// a priority change addressed to a bar that is still queued behind its predecessor touches no displayed bar
+	for _, v := range []int64{-5, 7} {
+		sp := &Spec{Name: fmt.Sprintf("c06-queued-setprio%d", v), Refresh: "manual", Q: -1}
+		sp.Bars = []BarSpec{{Total: 1}, {Total: 1}, {Total: 1}, {Total: 1, After: 1}}
+		sp.Main = []Op{{K: "add", B: 0}, {K: "add", B: 1}, {K: "add", B: 2}, {K: "add", B: 3}, {K: "refresh"}, {K: "setprio", B: 3, N: v}, {K: "refresh"}, {K: "refresh"}, {K: "refresh"},
+			{K: "incr", B: 0, N: 1}, {K: "refresh"}, {K: "refresh"}, {K: "refresh"}, {K: "refresh"}, {K: "incr", B: 1, N: 1}, {K: "incr", B: 2, N: 1}, {K: "incr", B: 3, N: 1}, {K: "refresh"}, {K: "refresh"}}
 		out = append(out, sp)
 	}
 	// priority change from a client thread while another refreshes; auto refresh
